@@ -9,6 +9,29 @@ def make_class(sep, pathattr):
     return type("SepAnyNode", (anytree.AnyNode,), {"separator": sep})
 
 
+class TaggedName(str):
+    """A str subclass whose string form differs from its raw character data (like a `class Kind(str, Enum)` member
+    on Python >= 3.11): wherever a name is used 'as a string', str() of it counts, not the payload."""
+
+    def __str__(self):
+        return "<" + str.__str__(self) + ">"
+
+    def __repr__(self):
+        return "TaggedName(%s)" % str.__repr__(self)
+
+
+def name_object(name):
+    """Case description of a name -> the object stored on the node."""
+    if isinstance(name, dict):
+        return name["int"] if "int" in name else TaggedName(name["tag"])
+    return name
+
+
+def name_text(name):
+    """Case description of a name -> the string by which the node is addressed."""
+    return str(name_object(name))
+
+
 def build(case):
     """Build the tree of a resolver case: returns nodes in pre-order."""
     from . import shapes
@@ -18,8 +41,7 @@ def build(case):
     nodes = []
     for idx, parent in enumerate(parents):
         name = case["names"][idx]
-        if isinstance(name, dict):
-            name = name["int"]
+        name = name_object(name)
         if case["pathattr"] == "name":
             node = cls(name)
         else:
@@ -35,8 +57,7 @@ def _to_tuple(shape):
 
 
 def name_of(case, idx):
-    name = case["names"][idx]
-    return str(name["int"]) if isinstance(name, dict) else name
+    return name_text(case["names"][idx])
 
 
 def eq(a, b, ignorecase):
